@@ -22,7 +22,12 @@ let run_case op t =
       ("ok allocs 0", "ok allocs 0")
   | "default_init" ->
       let o = obj_of (next_str t) in
-      ("ok " ^ zs (default_obs_poisoned o), "ok " ^ zs (empty_state o))
+      (* variant vg (valgrind, no 0xFF poisoning): the model's UB UninitRead is what memcheck reports as an error *)
+      let vg = (match Sys.getenv_opt "C02_VG" with Some "1" -> true | _ -> false) in
+      let m = (match default_obs o with
+               | UB _ when vg -> "crash 1099"
+               | _ -> "ok " ^ zs (default_obs_poisoned o)) in
+      (m, "ok " ^ zs (empty_state o))
   | "tofloat" ->
       (* tofloat <d|f> <n c1..cn> <off> <len>: to_floating_point on the view (buf + off, len) of an exact-size buffer *)
       let _ = next_str t in
